@@ -13,7 +13,7 @@ VARIABLES scn, pending, running, results, cache, done
 vars == <<scn, pending, running, results, cache, done>>
 
 ScenarioSet == {s \in [builder : Builders, potential : Potentials, exit_planes : ExitPlanes, detector : Detectors, scan : Scans,
-                       ctf : BOOLEAN, tilt : Tilts] : Valid(s)}
+                       ctf : BOOLEAN, tilt : Tilts, ctf_series : BOOLEAN] : Valid(s)}
 Init == /\ IF Mode = "scenarios" THEN scn \in ScenarioSet ELSE scn = [builder |-> "probe"]
         /\ pending = IF Mode = "scenarios" THEN {} ELSE 1..Blocks
         /\ running = [w \in 1..Workers |-> 0] /\ results = [b \in 1..Blocks |-> << >>] /\ cache = 0 /\ done = FALSE
